@@ -186,12 +186,15 @@ def tr_boundary(fn: ast.FunctionDef, prefix: str):
     """boundary = atomgrid.integrate(func_vals) / sph_o_l[0, 0]  with sph_o_l = generate_real_spherical_harmonics(0, ..)"""
     sph = [s for s in ast.walk(fn) if isinstance(s, ast.Assign) and ast.unparse(s.targets[0]) == "sph_o_l"]
     bnd = [s for s in ast.walk(fn) if isinstance(s, ast.Assign) and ast.unparse(s.targets[0]) == "boundary"]
-    if len(sph) != 1 or len(bnd) != 1:
+    if len(sph) > 1 or len(bnd) != 1:
         raise U(f"{fn.name}: boundary statements")
-    if ast.unparse(sph[0].value) != "generate_real_spherical_harmonics(0, np.array([0.1]), np.array([0.1]))":
-        raise U(f"{fn.name}: sph_o_l = {ast.unparse(sph[0].value)}")
-    t = Tr16({"atomgrid.integrate(func_vals)": "v_Q", "sph_o_l[0, 0]": "v_Y00"})
-    return [f"Definition {prefix}_boundary (v_Q v_Y00 : R) : R :=\n  {t.expr(bnd[0].value)}."], (sph[0], bnd[0])
+    table = {"atomgrid.integrate(func_vals)": "v_Q"}
+    if sph:
+        if ast.unparse(sph[0].value) != "generate_real_spherical_harmonics(0, np.array([0.1]), np.array([0.1]))":
+            raise U(f"{fn.name}: sph_o_l = {ast.unparse(sph[0].value)}")
+        table["sph_o_l[0, 0]"] = "v_Y00"
+    t = Tr16(table)
+    return [f"Definition {prefix}_boundary (v_Q v_Y00 : R) : R :=\n  {t.expr(bnd[0].value)}."], bnd[0]
 
 
 def tr_interpolate(fn: ast.FunctionDef, prefix: str, allowed: set[str]):
@@ -524,13 +527,7 @@ def gen(ctx: Ctx):
     out += o
     units += us
     ctx.gen("C16_gen.v", "\n".join(out) + "\n", units)
-
-
-def run(ctx: Ctx):
-    gen(ctx)
-    ctx.copy_coq("C16")
-    status = ctx.coq_build()
-    ctx.register_props(status)
+    return {u["unit"]: u for u in units}
 
 
 # ============================================================================================ implementation side
@@ -555,11 +552,14 @@ def real_harmonics_l2(xyz: np.ndarray) -> np.ndarray:
     order (l ascending; m = 0, 1, -1, 2, -2), without Condon-Shortley phase."""
     x, y, z = xyz.T
     r = np.sqrt(x * x + y * y + z * z)
-    return np.array([
-        np.full_like(r, 0.5 / math.sqrt(math.pi)),
-        S3 * z / r, S3 * x / r, S3 * y / r,
-        0.25 * S5 * (3 * z * z - r * r) / r ** 2, 0.5 * S15 * x * z / r ** 2, 0.5 * S15 * y * z / r ** 2,
-        0.25 * S15 * (x * x - y * y) / r ** 2, 0.5 * S15 * x * y / r ** 2])
+    with np.errstate(all="ignore"):
+        out = np.array([
+            np.full_like(r, 0.5 / math.sqrt(math.pi)),
+            S3 * z / r, S3 * x / r, S3 * y / r,
+            0.25 * S5 * (3 * z * z - r * r) / r ** 2, 0.5 * S15 * x * z / r ** 2, 0.5 * S15 * y * z / r ** 2,
+            0.25 * S15 * (x * x - y * y) / r ** 2, 0.5 * S15 * x * y / r ** 2])
+    out[1:, r == 0] = 0.0     # direction undefined at the centre; every use multiplies by a radial factor that vanishes there
+    return out
 
 
 @contextlib.contextmanager
@@ -604,13 +604,6 @@ def ev(c, r):
     return float(c)
 
 
-def ll_from_coeff(c0):
-    """degree l with -l(l+1) = coeff_0(1.0) (None if no integer fits)"""
-    v = -ev(c0, 1.0)
-    l = round((-1 + math.sqrt(max(0.0, 1 + 4 * v))) / 2)
-    return l if abs(l * (l + 1) - v) < 1e-9 else None
-
-
 HDR = ("From Coq Require Import Reals ZArith List Bool Lra.\nFrom Coquelicot Require Import Coquelicot.\nFrom Interval Require Import Tactic.\n"
        "From P Require Import C16_base C16_gen C16_model.\nImport ListNotations.\nOpen Scope R_scope.\n")
 
@@ -623,10 +616,21 @@ def tolq(y, rel=1e-11):
     return r_lit(Fraction(rel) * (1 + abs(Fraction(y))))
 
 
-def capture_solver(ctx: Ctx, kind: str, it: int):
+class Cases:
+    """Coq tactic cases collected by all tie functions and compiled together (parallel shards)."""
+
+    def __init__(self):
+        self.cases, self.meta = [], []
+
+    def add(self, goal, tac, obligation, key, what, obs=None):
+        self.cases.append((goal, tac))
+        self.meta.append(dict(obligation=obligation, key=key, what=what, obs=obs, goal=goal))
+
+
+def capture_solver(ctx: Ctx, kind: str, it: int, C: Cases):
     """one recorded run of solve_poisson_{bvp,ivp} on a small atomic grid -> Coq cases + python-level checks"""
     rng = ctx.rng
-    deg = rng.choice([3, 5, 5, 7])
+    deg = rng.choice([3, 5, 5] if ctx.quick else [3, 5, 5, 7])
     rgrid = dyadic_radial_grid(rng, rng.randint(5, 9))
     center = np.array([rng.randint(-4, 4) / 4 for _ in range(3)])
     ag = AtomGrid(rgrid, degrees=[deg], center=center)
@@ -646,12 +650,10 @@ def capture_solver(ctx: Ctx, kind: str, it: int):
         with patched(GP, "solve_ode_ivp", rec):
             pot = GP.solve_poisson_ivp(ag, vals.copy(), tf, r_interval=r_interval, ode_params=dict(user))
     key = f"{kind}:seed={ctx.seed}:it={it}:deg={deg}:n={rgrid.size}"
-    cases, meta = [], []      # tactic cases
     P_ = kind
 
-    def add(goal, tac, what, obs):
-        cases.append((goal, tac))
-        meta.append((key, what, obs))
+    def add(goal, tac, what, obs=None):
+        C.add(goal, tac, f"corr_{kind}_" + what.split("[")[0].split("(")[0].split(" ")[0], key, what, obs)
 
     # ---- python-level: number of solves, mesh, forwarded options
     splines = ag.radial_component_splines(vals)          # what the code must have used (AtomGrid wrapper: weights are 1)
@@ -679,57 +681,73 @@ def capture_solver(ctx: Ctx, kind: str, it: int):
         if c["transform"] is not tf or any(c["kw"].get(k) != v for k, v in user.items()) or c["kw"].get("no_derivatives") is not True:
             problems.append(("options", None, "transform / ode_params / no_derivatives not forwarded to the ODE solver"))
             break
-    # ---- the enumeration: (counter, degree, monopole flag) per call vs the generated loop nest
-    trip = []
+    # ---- the enumeration: (counter, monopole flag) per call vs the generated loop nest; the degree of each call is checked
+    #      through the coefficient values below (l is taken from the generated loop inside Coq)
+    trip, cvals = [], []
     for k, c in enumerate(rec.calls):
-        l = ll_from_coeff(c["coeffs"][0]) if len(c["coeffs"]) else None
-        cond = c["cond"]
-        vals_c = [float(t[2]) for t in cond] if kind == "bvp" else [float(v) for v in cond]
-        trip.append((k, -1 if l is None else l, any(v != 0.0 for v in vals_c)))
-    mono_possible = Q != 0.0
-    exp_list = "[" + "; ".join(f"(({k})%Z, ({l})%Z, {'true' if (b and mono_possible) else 'false'})" for k, l, b in trip) + "]"
-    add(f"map (fun it : Z * (Z * Z) => (fst it, fst (snd it), {P_}_is_monopole (fst (snd it)) (snd (snd it)))) ({P_}_iters {L}%Z) = {exp_list}",
-        "vm_compute; reflexivity", "enumeration", [list(map(int, t)) for t in trip])
-    add(f"map {P_}_fx_index (zrange 0 {nrow}%Z) = zrange 0 {nrow}%Z /\\ length {P_}_coeffs = {len(rec.calls[0]['coeffs']) if rec.calls else 0}%nat",
-        "split; vm_compute; reflexivity", "fx_index", None)
-    # ---- per call: coefficients, right-hand side, conditions on dyadic radii
-    radii = [rng.randint(1, 4096) / 256 for _ in range(2)] + [2.0 ** -rng.randint(8, 30)]
-    ncoef = 3
+        vc = [float(t[2]) for t in c["cond"]] if kind == "bvp" else [float(v) for v in c["cond"]]
+        cvals.append(vc)
+        trip.append((k, any(v != 0.0 for v in vc)))
+    if Q == 0.0:
+        return problems, key
+    exp_list = "[" + "; ".join(f"(({k})%Z, {'true' if b else 'false'})" for k, b in trip) + "]"
+    add(f"map (fun it : Z * (Z * Z) => (fst it, {P_}_is_monopole (fst (snd it)) (snd (snd it)))) ({P_}_iters {L}%Z) = {exp_list}",
+        "vm_compute; reflexivity", "enumeration", [[int(k), int(b)] for k, b in trip])
+    ncoef = len(rec.calls[0]["coeffs"]) if rec.calls else 0
+    add(f"map {P_}_fx_index (zrange 0 {nrow}%Z) = zrange 0 {nrow}%Z /\\ length {P_}_coeffs = {ncoef}%nat", "split; vm_compute; reflexivity", "fx_index")
+    # ---- conditions of every call: structure by conversion with symbolic boundary, numbers by interval
+    mono = [k for k, b in trip if b]
+    if kind == "bvp":
+        items = []
+        for k, c in enumerate(rec.calls):
+            ent = []
+            for (i, j, v) in c["cond"]:
+                v = float(v)
+                sym = "0" if v == 0.0 else "B" if (mono and v == cvals[mono[0]][-1]) else None
+                if sym is None:
+                    problems.append(("cond", v, f"call {k}: boundary value {v} is neither 0 nor the monopole value"))
+                    sym = "0"
+                ent.append(f"(({int(i)})%Z, ({int(j)})%Z, {sym})")
+            items.append("[" + "; ".join(ent) + "]")
+        add(f"forall B : R, map (fun it : Z * (Z * Z) => bvp_cond (fst (snd it)) (snd (snd it)) B) (bvp_iters {L}%Z) = [" + "; ".join(items) + "]",
+            "intros B; vm_compute; reflexivity", "conditions", cvals)
+        if mono:
+            y = cvals[mono[0]][-1]
+            add(f"Rabs (bvp_boundary {r_lit(Q)} {r_lit(Y00)} - {r_lit(y)}) <= {tolq(y)}", "unfold bvp_boundary; interval with (i_prec 80)", "boundary", y)
+    else:
+        items = ["ivp_cond 0 0 B Rm" if b else "[0; 0]" for _, b in trip]
+        if any(len(v) != 2 for v in cvals):
+            problems.append(("cond", None, "initial value vector is not of length 2"))
+        add(f"forall B Rm : R, map (fun it : Z * (Z * Z) => ivp_cond (fst (snd it)) (snd (snd it)) B Rm) (ivp_iters {L}%Z) = [" + "; ".join(items) + "]",
+            "intros B Rm; vm_compute; reflexivity", "conditions", cvals)
+        if mono:
+            for j, y in enumerate(cvals[mono[0]][:2]):
+                add(f"Rabs (nth {j} (ivp_cond 0 0 (ivp_boundary {r_lit(Q)} {r_lit(Y00)}) {r_lit(r_interval[0])}) 0 - {r_lit(y)}) <= {tolq(y)}",
+                    "unfold ivp_cond, ivp_boundary; change (ivp_is_monopole 0 0) with true; cbv iota; cbn [nth]; interval with (i_prec 80)", f"initial[{j}]", y)
+    # ---- coefficients and right-hand side of every call on dyadic radii; l of call k = degree of iteration k of the generated loop
+    radii = [rng.randint(1, 4096) / 256, 2.0 ** -rng.randint(8, 30)]
+    bind = lambda k: f"forall l m : Z, (l, m) = snd (nth {k} ({P_}_iters {L}%Z) (0, (0, 0))%Z) -> "      # noqa: E731
+    intro = "intros l m E; vm_compute in E; injection E as -> ->; "
+    unf = f"cbv [nth {P_}_coeffs {P_}_coeff_0 {'ivp_coeff_1' if kind == 'ivp' else ''}]; "
     for k, c in enumerate(rec.calls):
-        if trip[k][1] < 0 or len(c["coeffs"]) != ncoef:
-            problems.append(("coeffs", k, f"call {k}: coefficient list of length {len(c['coeffs'])} / coeff_0(1) is not -l(l+1)"))
+        if len(c["coeffs"]) != 3:
+            problems.append(("coeffs", k, f"call {k}: coefficient list of length {len(c['coeffs'])}"))
             continue
-        l = trip[k][1]
-        for r in radii if k in (0, 1, nrow - 1) or k % 3 == 0 else radii[:1]:
-            for j in range(ncoef):
-                y = ev(c["coeffs"][j], r)
-                add(f"Rabs (nth {j} {P_}_coeffs (fun _ _ => 0) (IZR {l}) {r_lit(r)} - {r_lit(y)}) <= {tolq(y)}",
-                    f"cbv [nth {P_}_coeffs {P_}_coeff_0 {'ivp_coeff_1' if kind == 'ivp' else ''}]; interval with (i_prec 80)", f"coeff[{j}](l={l}, r={r})", y)
-            rho_k = float(splines[k](r))
-            y = ev(c["fx"], r)
-            add(f"Rabs ({P_}_fx (fun _ _ => {r_lit(rho_k)}) {k}%Z {r_lit(r)} - {r_lit(y)}) <= {tolq(y)}",
-                f"unfold {P_}_fx; interval with (i_prec 80)", f"f_x[{k}](r={r})", y)
-            ctx.case((kind, deg, rgrid.size, k, r))
-        if kind == "bvp" and l >= 0:
+        r = radii[k % 2]
+        for j in ((0, 1, 2) if k in (0, nrow - 1) else (0,)):
+            y = ev(c["coeffs"][j], r)
+            add(f"{bind(k)}Rabs (nth {j} {P_}_coeffs (fun _ _ => 0) (IZR l) {r_lit(r)} - {r_lit(y)}) <= {tolq(y)}",
+                intro + unf + "interval with (i_prec 80)", f"coeff[{j}](call {k}, r={r})", y)
+        if kind == "bvp" and k in (0, 1, 4, nrow - 1):
             y = ev(c["coeffs"][0], 0.0)
-            add(f"Rabs (bvp_coeff_0_at0 (IZR {l}) - {r_lit(y)}) <= {tolq(y, 1e-9)}", "unfold bvp_coeff_0_at0; interval with (i_prec 80)", f"coeff_0(l={l}, r=0)", y)
-        # conditions
-        if kind == "bvp":
-            tags = [(int(t[0]), int(t[1])) for t in c["cond"]]
-            bvals = [float(t[2]) for t in c["cond"]]
-            add(f"map fst (bvp_cond (fst (snd (nth {k} (bvp_iters {L}%Z) (0,(0,0))%Z))) (snd (snd (nth {k} (bvp_iters {L}%Z) (0,(0,0))%Z))) 0) = "
-                "[" + "; ".join(f"(({a})%Z, ({b})%Z)" for a, b in tags) + "]", "vm_compute; reflexivity", f"bd_cond tags call {k}", tags)
-        else:
-            bvals = [float(v) for v in c["cond"]]
-        B = f"({P_}_boundary {r_lit(Q)} {r_lit(Y00)})"
-        extra = f" {r_lit(r_interval[0])}" if kind == "ivp" else ""
-        itk = f"(nth {k} ({P_}_iters {L}%Z) (0,(0,0))%Z)"
-        sel = "map snd " if kind == "bvp" else ""
-        for j, y in enumerate(bvals):
-            add(f"forall l m, (l, m) = snd {itk} -> Rabs (nth {j} ({sel}({P_}_cond l m {B}{extra})) 0 - {r_lit(y)}) <= {tolq(y)}",
-                f"intros l m E; vm_compute in E; injection E as -> ->; unfold {P_}_cond, {P_}_boundary; "
-                f"match goal with |- context [{P_}_is_monopole ?a ?b] => let v := eval vm_compute in ({P_}_is_monopole a b) in change ({P_}_is_monopole a b) with v end; "
-                f"cbv iota; cbn [map snd nth]; interval with (i_prec 80)", f"condition[{j}] call {k}", y)
+            add(f"{bind(k)}Rabs (bvp_coeff_0_at0 (IZR l) - {r_lit(y)}) <= {tolq(y, 1e-9)}", intro + "unfold bvp_coeff_0_at0; interval with (i_prec 80)",
+                f"coeff_0(call {k}, r=0)", y)
+        r = radii[k % 2] if k % 2 == 0 else rng.randint(1, 2048) / 256
+        rho_k = float(splines[k](r))
+        y = ev(c["fx"], r)
+        add(f"Rabs ({P_}_fx (fun _ _ => {r_lit(rho_k)}) {k}%Z {r_lit(r)} - {r_lit(y)}) <= {tolq(y)}",
+            f"unfold {P_}_fx; interval with (i_prec 80)", f"f_x[{k}](r={r})", y)
+        ctx.case((kind, deg, rgrid.size, k, r))
     # ---- the returned closure: pairing of solution k with harmonic row k, radial factor
     if L <= 2 and len(rec.calls) == nrow:
         pts = center + nprng.uniform(-3, 3, size=(6, 3))
@@ -741,7 +759,6 @@ def capture_solver(ctx: Ctx, kind: str, it: int):
         if not np.allclose(got, exp, rtol=1e-10, atol=1e-12):
             problems.append(("pairing", float(np.max(np.abs(got - exp))),
                              "returned closure is not sum_k radial_value(solution_k)(r) * Y_k(theta, phi) with Horton rows"))
-        # generated radial factor on one point
         u_val = rec.mark(1) * rr[0] ** rec.power
         yk = u_val / rr[0] if kind == "bvp" else u_val
         add(f"Rabs ({P_}_radial_value (fun _ => {r_lit(u_val)}) {r_lit(float(rr[0]))} - {r_lit(yk)}) <= {tolq(yk)}",
@@ -751,42 +768,39 @@ def capture_solver(ctx: Ctx, kind: str, it: int):
         if not (at0.shape == (1,) and at0[0] == 0.0):
             problems.append(("origin", float(at0[0]), "value at the expansion centre is not 0 (documented convention of the BVP solver)"))
     ctx.count(f"capture_{kind}_L{L}")
-    return cases, meta, problems, key
+    return problems, key
 
 
-def tie_solvers(ctx: Ctx):
-    cases, meta = [], []
+def tie_solvers(ctx: Ctx, C: Cases):
     n = 2 if ctx.quick else 8
     for kind in ("bvp", "ivp"):
         for it in range(n):
-            c, m, problems, key = capture_solver(ctx, kind, it)
-            cases += c
-            meta += m
+            problems, key = capture_solver(ctx, kind, it, C)
             for what, obs, text in problems:
                 ctx.fail(f"corr_{kind}_{what}", f"{key}:{what}", obs, f"{kind} solver, {text}", {"case": key}, found_input=False)
-    bad = ctx.coq_tactic_cases("C16_corr", HDR, cases, shard=max(10, len(cases) // 14 + 1), timeout=900)
+
+
+def run_tie_cases(ctx: Ctx, C: Cases):
+    bad = ctx.coq_tactic_cases("C16_corr", HDR, C.cases, shard=max(20, len(C.cases) // 8 + 1), timeout=900)
     seen = set()
     for i in bad:
-        key, what, obs = meta[i]
-        kind = key.split(":")[0]
-        cat = what.split("[")[0].split("(")[0].split(" ")[0]
-        if (kind, cat) in seen:
+        m = C.meta[i]
+        if m["obligation"] in seen:
             continue
-        seen.add((kind, cat))
-        ctx.fail(f"corr_{kind}_{cat}", f"{key}:{what}", obs if not isinstance(obs, list) else None,
-                 f"generated model of the {kind} solver does not match the implementation: {what} ({key})", {"goal": cases[i][0][:600]}, found_input=False)
-    if meta:
-        ctx.sample({"case": meta[0][0], "what": meta[0][1], "impl": meta[0][2]})
-        mid = len(meta) // 2
-        ctx.sample({"case": meta[mid][0], "what": meta[mid][1], "impl": meta[mid][2]})
-    ctx.cov["correspondence_cases"] = len(cases)
+        seen.add(m["obligation"])
+        ctx.fail(m["obligation"], f"{m['key']}:{m['what']}", m["obs"] if isinstance(m["obs"], (int, float)) else None,
+                 f"generated model does not match the implementation: {m['what']} ({m['key']})", {"goal": m["goal"][:700]}, found_input=False)
+    for i in (0, len(C.meta) // 2, len(C.meta) - 1):
+        if C.meta:
+            m = C.meta[i]
+            ctx.sample({"case": m["key"], "what": m["what"], "impl": m["obs"] if not isinstance(m["obs"], list) else "(sequence)"})
+    ctx.cov["correspondence_cases"] = len(C.cases)
     return len(bad)
 
 
-def tie_laplacian(ctx: Ctx):
+def tie_laplacian(ctx: Ctx, binding: dict, C: Cases):
     """interpolate_laplacian on densities g(r) * Y_k: the result is Y_k(p) * lap_row(f_k, f_k', f_k'', degrees[k], r)."""
     rng = ctx.rng
-    cases, meta = [], []
     for it in range(1 if ctx.quick else 4):
         deg = 5 if it % 2 == 0 else 3
         rgrid = dyadic_radial_grid(rng, rng.randint(6, 9))
@@ -802,7 +816,7 @@ def tie_laplacian(ctx: Ctx):
             vals = (1.0 + rg) * np.exp(-a * rg) * Ygrid[k]
             lap = GP.interpolate_laplacian(ag, vals.copy())
             spl = ag.radial_component_splines(vals)
-            pts = center + nprng.uniform(-2.5, 2.5, size=(2, 3))
+            pts = center + nprng.uniform(-2.5, 2.5, size=(1 if ctx.quick else 2, 3))
             got = lap(pts.copy())
             rel = pts - center
             rr = np.linalg.norm(rel, axis=1)
@@ -812,13 +826,13 @@ def tie_laplacian(ctx: Ctx):
                 f0, f1, f2 = (float(spl[k](rr[j], nu)) for nu in (0, 1, 2))
                 y = float(got[j])
                 tol = r_lit(Fraction(1e-8) * (1 + abs(Fraction(y)) + abs(Fraction(f0)) / Fraction(float(rr[j])) ** 2))
-                cases.append((f"Rabs ({r_lit(float(Yp[k][j]))} * lap_row {r_lit(f0)} {r_lit(f1)} {r_lit(f2)} (IZR (nth {k} (lap_degrees {L}%Z) 0%Z)) {r_lit(float(rr[j]))} - {r_lit(y)}) <= {tol}",
-                              f"let d := eval vm_compute in (nth {k} (lap_degrees {L}%Z) 0%Z) in change (nth {k} (lap_degrees {L}%Z) 0%Z) with d; unfold lap_row; interval with (i_prec 80)"))
-                meta.append((key, f"point {pts[j].tolist()}", y))
+                C.add(f"Rabs ({r_lit(float(Yp[k][j]))} * lap_row {r_lit(f0)} {r_lit(f1)} {r_lit(f2)} (IZR (nth {k} (lap_degrees {L}%Z) 0%Z)) {r_lit(float(rr[j]))} - {r_lit(y)}) <= {tol}",
+                      f"let d := eval vm_compute in (nth {k} (lap_degrees {L}%Z) 0%Z) in change (nth {k} (lap_degrees {L}%Z) 0%Z) with d; unfold lap_row; interval with (i_prec 80)",
+                      "corr_laplacian_row", key, f"point {pts[j].tolist()}", y)
                 ctx.case(("laplacian", deg, k, j, it))
         # degrees list as a whole, and the cut-off rule on a spherical function
-        cases.append((f"lap_degrees {L}%Z = {zl([l * (l + 1) for l in range(L + 1) for _ in range(2 * l + 1)])}", "vm_compute; reflexivity"))
-        meta.append((f"laplacian:degrees:L={L}", "degrees", None))
+        C.add(f"lap_degrees {L}%Z = {zl([l * (l + 1) for l in range(L + 1) for _ in range(2 * l + 1)])}", "vm_compute; reflexivity",
+              "corr_laplacian_degrees", f"laplacian:degrees:L={L}", "degrees")
         vals = np.exp(-rg)
         lap = GP.interpolate_laplacian(ag, vals.copy())
         u = np.array([0.6, 0.0, 0.8])
@@ -827,27 +841,23 @@ def tie_laplacian(ctx: Ctx):
         if not (np.allclose(a0, a1, rtol=1e-9, atol=1e-12) and np.allclose(a2, a1, rtol=1e-9, atol=1e-12)):
             ctx.fail("corr_laplacian_cutoff", f"laplacian:cutoff:seed={ctx.seed}:it={it}", float(a0[0]),
                      "radii below the cut-off are not replaced by the cut-off (spherical function)", {"center": center.tolist()}, found_input=False)
-    # molecular grid: sum over the atoms of the atomic Laplacians of w_A * f
+    # molecular grid: closure i evaluates the atomic Laplacian on the grid / with the slice that the generated binding says
     mg, _ = small_molgrid(ctx, 2, dyadic=True)
     nprng = np.random.default_rng(rng.randint(0, 2 ** 31))
     vals = nprng.normal(size=mg.size)
     pts = nprng.uniform(-2, 2, size=(5, 3)) + mg.atcoords[0]
     got = GP.interpolate_laplacian(mg, vals.copy())(pts.copy())
     exp = np.zeros(len(pts))
+    last = len(mg.atcoords) - 1
     for i in range(len(mg.atcoords)):
-        s, e = mg.indices[i], mg.indices[i + 1]
-        exp += GP.interpolate_laplacian(mg[i], (vals * mg.aim_weights)[s:e])(pts.copy())
+        gi = i if binding.get("grid") == "v_i" else last
+        si = i if binding.get("function") == "v_i" else last
+        s, e = mg.indices[si], mg.indices[si + 1]
+        exp += GP.interpolate_laplacian(mg[gi], (vals * mg.aim_weights)[s:e])(pts.copy())
     ctx.case(("laplacian", "mol"))
     if not np.allclose(got, exp, rtol=1e-10, atol=1e-10):
         ctx.fail("corr_laplacian_mol", f"laplacian:mol:seed={ctx.seed}", float(np.max(np.abs(got - exp))),
-                 "interpolate_laplacian on a MolGrid is not the sum over atoms of the atomic Laplacians of aim_weights * f", {}, found_input=False)
-    bad = ctx.coq_tactic_cases("C16_corr_lap", HDR, cases, shard=max(8, len(cases) // 8 + 1), timeout=900)
-    for i in bad[:3]:
-        key, what, obs = meta[i]
-        ctx.fail("corr_laplacian_row", f"{key}:{what}", obs, f"generated lap_row / lap_degrees do not enclose interpolate_laplacian: {key} {what}",
-                 {"goal": cases[i][0][:600]}, found_input=False)
-    ctx.cov["laplacian_cases"] = len(cases)
-    return len(bad)
+                 f"interpolate_laplacian on a MolGrid does not follow the generated closure binding {binding}", {}, found_input=False)
 
 
 def small_molgrid(ctx: Ctx, natom: int, dyadic=False, n_rad=40, deg=9, sep=None):
@@ -912,12 +922,11 @@ def s_potential(points, center, coeffs, alphas):
     return out
 
 
-def tie_robust(ctx: Ctx):
+def tie_robust(ctx: Ctx, C: Cases):
     """solve_poisson_robust with the BVP solve replaced by a recorder: residual handed over and recombination."""
     from grid.coulomb import load_atomic_gaussian_params
     rng = ctx.rng
     nprng = np.random.default_rng(rng.randint(0, 2 ** 31))
-    cases, meta = [], []
     for natom, atnums in ((1, [rng.choice([1, 6, 8])]), (2, [1, rng.choice([6, 7, 17])])):
         mg, tf = small_molgrid(ctx, natom, dyadic=True)
         dens = np.abs(nprng.normal(size=mg.size)) + s_density(mg.points, mg.atcoords[0], [0.7], [0.9])
@@ -967,39 +976,28 @@ def tie_robust(ctx: Ctx):
             i = int(nprng.integers(0, mg.size))
             core_i = float(sum(GR._build_core_density(mg.points[i:i + 1], c, *p)[0] for c, p in zip(mg.atcoords, params)))
             if natom == 1 and not split2:
-                cases.append((f"Rabs (robust_split1 {r_lit(float(dens[i]))} {r_lit(core_i)} - {r_lit(float(cap['residual'][i]))}) <= {tolq(float(dens[i]), 1e-10)}",
-                              "unfold robust_split1; interval with (i_prec 80)"))
-                meta.append((key, "robust_split1"))
+                C.add(f"Rabs (robust_split1 {r_lit(float(dens[i]))} {r_lit(core_i)} - {r_lit(float(cap['residual'][i]))}) <= {tolq(float(dens[i]), 1e-10)}",
+                              "unfold robust_split1; interval with (i_prec 80)", "corr_robust_" + "robust_split1", key, "robust_split1")
             if split2:
                 fi = float(fits["inp"][i] - fits["out"][3][i])
-                cases.append((f"Rabs (robust_split2 {r_lit(float(fits['inp'][i]))} {r_lit(fi)} - {r_lit(float(fits['out'][3][i]))}) <= {tolq(float(dens[i]), 1e-10)}",
-                              "unfold robust_split2; interval with (i_prec 80)"))
-                meta.append((key, "robust_split2"))
+                C.add(f"Rabs (robust_split2 {r_lit(float(fits['inp'][i]))} {r_lit(fi)} - {r_lit(float(fits['out'][3][i]))}) <= {tolq(float(dens[i]), 1e-10)}",
+                              "unfold robust_split2; interval with (i_prec 80)", "corr_robust_" + "robust_split2", key, "robust_split2")
             j = 0
             vb = float(exp[j] - vcore[j] - marker[j])
-            cases.append((f"Rabs (robust_total {r_lit(float(vcore[j]))} {r_lit(vb)} {r_lit(float(marker[j]))} - {r_lit(float(got[j]))}) <= {tolq(float(got[j]), 1e-10)}",
-                          "unfold robust_total; interval with (i_prec 80)"))
-            meta.append((key, "robust_total"))
+            C.add(f"Rabs (robust_total {r_lit(float(vcore[j]))} {r_lit(vb)} {r_lit(float(marker[j]))} - {r_lit(float(got[j]))}) <= {tolq(float(got[j]), 1e-10)}",
+                          "unfold robust_total; interval with (i_prec 80)", "corr_robust_" + "robust_total", key, "robust_total")
     # core density of one primitive, and accumulation over two primitives
     for _ in range(3):
         c, a, r2 = rng.randint(1, 64) / 16, rng.randint(1, 4096) / 64, rng.randint(1, 256) / 128
         p = np.array([[math.sqrt(r2), 0.0, 0.0]])
         y = float(GR._build_core_density(p, np.zeros(3), np.array([c]), np.array([a]))[0])
         r2f = float(np.sum(p ** 2))
-        cases.append((f"Rabs (core_density_term {r_lit(c)} {r_lit(a)} {r_lit(r2f)} - {r_lit(y)}) <= {tolq(y, 1e-10)}",
-                      "unfold core_density_term; interval with (i_prec 80)"))
-        meta.append((f"core_density:c={c}:alpha={a}:r2={r2f}", "core_density_term"))
+        C.add(f"Rabs (core_density_term {r_lit(c)} {r_lit(a)} {r_lit(r2f)} - {r_lit(y)}) <= {tolq(y, 1e-10)}",
+                      "unfold core_density_term; interval with (i_prec 80)", "corr_robust_" + "core_density_term", f"core_density:c={c}:alpha={a}:r2={r2f}", "core_density_term")
         y2 = float(GR._build_core_density(p, np.zeros(3), np.array([c, 2 * c]), np.array([a, a / 4]))[0])
-        cases.append((f"Rabs (core_density_term {r_lit(c)} {r_lit(a)} {r_lit(r2f)} + core_density_term {r_lit(2 * c)} {r_lit(a / 4)} {r_lit(r2f)} - {r_lit(y2)}) <= {tolq(y2, 1e-10)}",
-                      "unfold core_density_term; interval with (i_prec 80)"))
-        meta.append((f"core_density_sum:c={c}:alpha={a}:r2={r2f}", "core_density_term"))
+        C.add(f"Rabs (core_density_term {r_lit(c)} {r_lit(a)} {r_lit(r2f)} + core_density_term {r_lit(2 * c)} {r_lit(a / 4)} {r_lit(r2f)} - {r_lit(y2)}) <= {tolq(y2, 1e-10)}",
+                      "unfold core_density_term; interval with (i_prec 80)", "corr_robust_" + "core_density_term", f"core_density_sum:c={c}:alpha={a}:r2={r2f}", "core_density_term")
         ctx.case(("core_density", c, a, r2))
-    bad = ctx.coq_tactic_cases("C16_corr_rob", HDR, cases, shard=max(8, len(cases) // 4 + 1), timeout=900)
-    for i in bad[:3]:
-        key, what = meta[i]
-        ctx.fail(f"corr_robust_{what}", f"{key}:{what}", None, f"generated {what} does not enclose the implementation ({key})", {"goal": cases[i][0][:600]},
-                 found_input=False)
-    ctx.cov["robust_cases"] = len(cases)
 
 
 # ============================================================================================ oracle validation + search (sweeps)
@@ -1055,9 +1053,7 @@ def density_and_potential(case, coords):
                 _, l, row, c, a, power = pr
                 rel = p - coords[0]
                 r = np.linalg.norm(rel, axis=1)
-                with np.errstate(all="ignore"):
-                    y = real_harmonics_l2(rel)[l * l + row]
-                y = np.where(r > 0, y, 0.0)
+                y = real_harmonics_l2(rel)[l * l + row]
                 out += c * lm_radial(l, a, power)(r) * y
         return out
 
@@ -1090,10 +1086,11 @@ def density_and_potential(case, coords):
 def eval_points(case, coords, nprng, n):
     """random points around the atoms, none closer than 1e-3 to a centre (the BVP closure returns 0 at the centre itself)"""
     box = case.get("box", 3.0)
+    dmin = case.get("min_dist", 1e-3)
     pts = []
     while len(pts) < n:
         p = coords[nprng.integers(0, len(coords))] + nprng.uniform(-box, box, size=3)
-        if min(np.linalg.norm(p - c) for c in coords) > 1e-3:
+        if min(np.linalg.norm(p - c) for c in coords) > dmin:
             pts.append(p)
     return np.array(pts)
 
@@ -1125,7 +1122,11 @@ def run_case(ctx: Ctx, case, results):
     except ValueError as e:
         if "didn't converge" in str(e):
             ctx.count("sweep_not_converged")      # the ODE solver's documented failure mode: no potential is returned
-            results.append((case, None, None))
+            ctx.notes.append(f"ODE solver did not converge (no potential returned): {case_text(case)}")
+            # atom-centred spherical Gaussians on the tests' grids are inside the envelope: no answer there is a failure;
+            # anisotropic / off-centre components with the origin in the mesh are known to be fragile: counted only
+            results.append((case, None if case["cat"] in ("bvp_lm", "bvp_near") else float("inf"),
+                            dict(point=None, got="ValueError: " + str(e), expected="a potential", scale=1.0)))
             return None
         raise
     got = V(pts.copy())
@@ -1164,13 +1165,14 @@ def sweep_cases(ctx: Ctx):
         bvp=dict(remove_large_pts=1e6, include_origin=True), cat="bvp")
     add(solver="bvp", radial=("identity_laguerre", 100), degree=5, atoms=[O], density=[("s", O, 1.0, round(rng.uniform(0.1, 0.6), 3))],
         bvp=dict(remove_large_pts=None), box=6.0, cat="bvp")
-    add(solver="bvp", radial=("becke_gl", 70, 1e-3, 1.5), degree=5, atoms=[O], density=[("s", O, 1.0, alpha())],
-        bvp=dict(remove_large_pts=10.0, include_origin=False), cat="bvp")
+    # without the origin the inner condition u(r_min) = 0 costs about V(0) r_min / r: small r_min, points not closer than 0.5
+    add(solver="bvp", radial=("becke_gl", 70, 1e-5, 1.5), degree=5, atoms=[O], density=[("s", O, 1.0, alpha())],
+        bvp=dict(remove_large_pts=10.0, include_origin=False), min_dist=0.5, cat="bvp")
     # --- anisotropic components rho = r^l exp(-a r^2) Y_lm against the analytic multipole potential
     add(solver="bvp", radial=("becke_gl", 70, 1e-3, 1.5), degree=5, atoms=[O], density=[("lm", 1, rng.choice([0, 1, 2]), 1.0, alpha(), 1)],
         bvp=dict(remove_large_pts=40.0, include_origin=False), box=2.0, npts=16, cat="bvp_lm")
     add(solver="bvp", radial=gl, degree=5, atoms=[O], density=[("lm", 2, rng.choice([0, 1, 2, 3, 4]), 1.0, alpha(), 2)],
-        bvp=dict(remove_large_pts=40.0), box=2.0, npts=16, cat="bvp_lm")
+        bvp=dict(remove_large_pts=40.0, include_origin=False), box=2.0, npts=16, cat="bvp_lm")
     add(solver="bvp", radial=("becke_gl", 70, 1e-3, 1.5), degree=5, atoms=[O],
         density=[("s", O, 1.0, alpha()), ("lm", 1, rng.choice([0, 1, 2]), 0.8, alpha(), 1), ("lm", 2, rng.choice([0, 1, 2, 3, 4]), -0.6, alpha(), 2)],
         bvp=dict(remove_large_pts=40.0, include_origin=False), box=2.0, npts=16, cat="bvp_lm")
@@ -1184,7 +1186,7 @@ def sweep_cases(ctx: Ctx):
         density=[("s", [1.0, 0.0, 0.0], 1.0, round(rng.uniform(0.08, 0.5), 3)), ("s", [1.0, 0.0, 0.0], 0.5, round(rng.uniform(0.08, 0.5), 3))],
         r_interval=(200.0, 1e-3), box=8.0, cat="ivp")
     if not q:
-        for _ in range(10):
+        for _ in range(24):
             c = [round(rng.uniform(-1, 1), 2) for _ in range(3)]
             add(solver="bvp", radial=("becke_gl", rng.choice([60, 90, 120]), rng.choice([1e-5, 1e-4, 1e-3]), rng.choice([1.0, 1.5, 2.5])),
                 degree=rng.choice([5, 9, 13]), atoms=[c], density=[("s", c, round(rng.uniform(-2, 2), 2) or 1.0, alpha()) for _ in range(rng.randint(1, 4))],
@@ -1196,9 +1198,9 @@ def sweep_cases(ctx: Ctx):
         add(solver="bvp", radial=("becke_trap", 250, 0.0, 1.5), degree=5, atoms=[O], density=[("lm", 1, 1, 1.0, 1.0, 1)],
             bvp=dict(remove_large_pts=1e6, include_origin=True), box=2.0, npts=16, cat="bvp_lm")
         # Gaussians NEAR (not on) the atom: all degrees of the expansion contribute
-        for d in (0.1, 0.25):
+        for d in (0.1, 0.2):
             cen = [d, 0.0, 0.0] if rng.random() < 0.5 else [0.0, d * 0.6, -d * 0.8]
-            add(solver="bvp", radial=("becke_gl", 80, 1e-3, 1.5), degree=17, atoms=[O], density=[("s", cen, 1.0, round(rng.uniform(0.5, 1.5), 3))],
+            add(solver="bvp", radial=("becke_gl", 80, 1e-3, 1.5), degree=17, atoms=[O], density=[("s", cen, 1.0, round(rng.uniform(0.5, 1.2), 3))],
                 bvp=dict(remove_large_pts=40.0, include_origin=False), box=2.5, cat="bvp_near")
         # molecules: 2 and 3 atoms
         add(solver="bvp", radial=("becke_gl", 100, 1e-5, 1.5), degree=29, atoms=[O, [10.0, 0.0, 0.0]],
@@ -1206,7 +1208,7 @@ def sweep_cases(ctx: Ctx):
         add(solver="bvp", radial=("becke_gl", 60, 1e-4, 1.5), degree=9, atoms=[O, [9.0, 0.0, 0.0], [0.0, 9.0, 0.0]],
             density=[("s", O, 1.0, alpha()), ("s", [9.0, 0.0, 0.0], -0.5, alpha()), ("s", [0.0, 9.0, 0.0], 0.7, alpha())],
             bvp=dict(remove_large_pts=10.0), cat="bvp_mol")
-        for _ in range(4):
+        for _ in range(8):
             c = [round(rng.uniform(-1, 1), 2) for _ in range(3)]
             add(solver="ivp", radial=("becke_gl", rng.choice([120, 200]), 0.01, 1.5), degree=rng.choice([3, 5, 11]), atoms=[c],
                 density=[("s", c, round(rng.uniform(0.3, 2), 2), alpha()) for _ in range(rng.randint(1, 3))], cat="ivp")
@@ -1236,7 +1238,7 @@ def sweep_linearity(ctx: Ctx, out):
         rho2 = s_density(grid.points, coords[-1], [0.6, 0.4], [a2, 2 * a2])
         if solver == "bvp" and len(atoms) == 1:   # an anisotropic part as well (quadrupole)
             rel = grid.points - coords[0]
-            rho2 = rho2 + 0.3 * np.sum(rel ** 2, axis=1) * np.exp(-a1 * np.sum(rel ** 2, axis=1)) * real_harmonics_l2(rel + 1e-300)[4 + ci % 5]
+            rho2 = rho2 + 0.3 * np.sum(rel ** 2, axis=1) * np.exp(-a1 * np.sum(rel ** 2, axis=1)) * real_harmonics_l2(rel)[4 + ci % 5]
         pts = eval_points(dict(box=3.0), coords, nprng, 40)
         try:
             Vs = [solve_case(case, grid, tf, r.copy())(pts.copy()) for r in (rho1, rho2, a * rho1 + b * rho2)]
@@ -1260,9 +1262,10 @@ def sweep_linearity(ctx: Ctx, out):
 def sweep_robust(ctx: Ctx, out):
     from grid.coulomb import load_atomic_gaussian_params
     rng = ctx.rng
-    confs = [([1], [[0.0, 0.0, 0.0]], 60, 5), ([rng.choice([6, 8])], [[0.0, 0.0, 0.0]], 70, 5)]
+    confs = [([1], [[0.0, 0.0, 0.0]], 60, 5), ([rng.choice([6, 8]), 1], [[0.0, 0.0, 0.0], [10.0, 0.0, 0.0]], 50, 5)]
     if not ctx.quick:
-        confs += [([1, 1], [[0.0, 0.0, 0.0], [10.0, 0.0, 0.0]], 60, 9), ([7], [[0.2, 0.0, -0.4]], 100, 9), ([17], [[0.0, 0.0, 0.0]], 100, 5)]
+        confs += [([1, 1], [[0.0, 0.0, 0.0], [10.0, 0.0, 0.0]], 60, 9), ([7], [[0.2, 0.0, -0.4]], 100, 9), ([17], [[0.0, 0.0, 0.0]], 100, 5),
+                  ([6], [[0.0, 0.0, 0.0]], 70, 5)]
     for ci, (atnums, atoms, nrad, deg) in enumerate(confs):
         case = dict(id=2000 + ci, solver="robust", radial=("becke_gl", nrad, 1e-5, 1.5), degree=deg, atoms=atoms, atnums=atnums,
                     bvp=dict(remove_large_pts=10.0))
@@ -1314,12 +1317,20 @@ def sweep(ctx: Ctx):
     for case, err, info in results:
         if err is None:
             continue
-        out.append(dict(cat=case["cat"], err=err, tol=TOL, key=f"{case['solver']}:case={case['id']}:tier={ctx.tier}:seed={ctx.seed}",
-                        text=f"solve_poisson_{case['solver']} = {info['got']} but the analytic potential is {info['expected']} at {info['point']} "
-                             f"(error {err:.3e} per unit charge, allowed {TOL}); case {case_text(case)}",
-                        replay=dict(case=case_text(case), **info)))
-    sweep_linearity(ctx, out)
-    sweep_robust(ctx, out)
+        if info["point"] is None:
+            text = f"solve_poisson_{case['solver']} returned no potential ({info['got']}) for a density inside the envelope; case {case_text(case)}"
+        else:
+            text = (f"solve_poisson_{case['solver']} = {info['got']} but the analytic potential is {info['expected']} at {info['point']} "
+                    f"(error {err:.3e} per unit charge, allowed {TOL}); case {case_text(case)}")
+        out.append(dict(cat=case["cat"], err=(err if err != float("inf") else 1e9), tol=TOL, key=f"{case['solver']}:case={case['id']}:tier={ctx.tier}:seed={ctx.seed}",
+                        text=text, replay=dict(case=case_text(case), **info)))
+    for part, cat in ((sweep_linearity, "lin"), (sweep_robust, "robust")):
+        try:
+            part(ctx, out)
+        except Exception as e:  # noqa: BLE001  -- the solvers raised on an input inside the envelope
+            out.append(dict(cat=cat, err=1e9, tol=1.0, key=f"{part.__name__}:raised:{type(e).__name__}:tier={ctx.tier}:seed={ctx.seed}",
+                            text=f"{part.__name__}: the solver raised {type(e).__name__}: {e} on a spherical atom-centred Gaussian density",
+                            replay=dict(exception=repr(e))))
     return out
 
 
@@ -1330,7 +1341,7 @@ OBLIGATION_CATS = {
     "far_field_other_components": ["bvp_lm"], "far_field_ivp": ["ivp"], "far_field_ivp_other_components": ["ivp"],
     "lm_enumeration": ["bvp_lm", "bvp"], "lm_enumeration_ivp": ["ivp"], "laplacian_expansion": ["lap"], "laplacian_degrees": ["lap"],
     "linear_in_density": ["lin", "bvp"], "linear_in_density_ivp": ["lin", "ivp"], "robust_recombination": ["robust"],
-    "robust_recombination_sound": ["robust"], "robust_exact_on_core_model": ["robust"], "robust_core_pair_poisson": ["robust"],
+    "robust_recombination_sound": ["robust"], "laplacian_mol_sum": [], "robust_exact_on_core_model": ["robust"], "robust_core_pair_poisson": ["robust"],
 }
 
 
@@ -1349,15 +1360,60 @@ def sweep_laplacian(ctx: Ctx, out):
     err = np.abs(got - exp)
     j = int(np.argmax(err))
     ctx.case(("sweep_laplacian", a))
+    # an l = 2 function r^2 exp(-b r^2) Y_2m: Laplacian (4 b^2 r^4 - 14 b r^2) exp(-b r^2) Y_2m
+    b_, row = round(ctx.rng.uniform(0.3, 1.0), 3), ctx.rng.randint(0, 4)
+    rel = ag.points
+    rg2 = np.sum(rel ** 2, axis=1)
+    lap2 = GP.interpolate_laplacian(ag, rg2 * np.exp(-b_ * rg2) * real_harmonics_l2(rel)[4 + row])
+    got2 = lap2(pts.copy())
+    r2 = np.sum(pts ** 2, axis=1)
+    exp2 = (4 * b_ ** 2 * r2 ** 2 - 14 * b_ * r2) * np.exp(-b_ * r2) * real_harmonics_l2(pts)[4 + row]
+    err2 = np.abs(got2 - exp2)
+    j2 = int(np.argmax(err2))
+    ctx.case(("sweep_laplacian_l2", b_, row))
+    out.append(dict(cat="lap", err=float(err2[j2]), tol=TOL, key=f"laplacian_l2:beta={b_}:row={row}:seed={ctx.seed}",
+                    text=f"interpolate_laplacian(r^2 exp(-{b_} r^2) Y_2[row {row}]) = {float(got2[j2])} but the analytic Laplacian is {float(exp2[j2])} at {pts[j2].tolist()}",
+                    replay=dict(beta=b_, row=row, point=pts[j2].tolist(), got=float(got2[j2]), expected=float(exp2[j2]))))
     out.append(dict(cat="lap", err=float(err[j]), tol=TOL, key=f"laplacian:alpha={a}:seed={ctx.seed}",
                     text=f"interpolate_laplacian(erf(sqrt({a}) r)/r) = {float(got[j])} but -4 pi rho = {float(exp[j])} at {pts[j].tolist()}",
                     replay=dict(alpha=a, point=pts[j].tolist(), got=float(got[j]), expected=float(exp[j]))))
 
 
+LAPMOL_KEY = "interpolate_laplacian(MolGrid[(0,0,0),(1.5,0,0)]; GaussLegendre(40)+Becke(1e-4,1.5), degree 9, Becke weights)(exp(-|r|^2)) at (0.5, 0.25, -0.25)"
+
+
+def laplacian_mol_canonical():
+    """Deterministic input (no randomness): Laplacian of a Gaussian sitting on the first atom of a two-atom molecular grid.
+    Property: the molecular result is the sum over the atoms A of the atomic Laplacians of (w_A f) -- each evaluated through the
+    single-atom code path."""
+    tf = BeckeRTransform(1e-4, R=1.5)
+    rad = tf.transform_1d_grid(GaussLegendre(40))
+    coords = np.array([[0.0, 0.0, 0.0], [1.5, 0.0, 0.0]])
+    ats = [AtomGrid(rad, degrees=[9], center=c) for c in coords]
+    mg = MolGrid(atnums=np.array([1, 1]), atgrids=ats, aim_weights=BeckeWeights(order=3), store=True)
+    f = np.exp(-np.sum(mg.points ** 2, axis=1))
+    p = np.array([[0.5, 0.25, -0.25]])
+    got = float(GP.interpolate_laplacian(mg, f.copy())(p.copy())[0])
+    exp = 0.0
+    for i in range(2):
+        s, e = mg.indices[i], mg.indices[i + 1]
+        exp += float(GP.interpolate_laplacian(mg[i], (f * mg.aim_weights)[s:e])(p.copy())[0])
+    r2 = float(np.sum(p ** 2))
+    return got, exp, (4 * r2 - 6) * math.exp(-r2)
+
+
 def run(ctx: Ctx):  # noqa: F811
+    import time
+    t_last = [time.time()]
+
+    def phase(name):
+        now = time.time()
+        ctx.cov.setdefault("phase_s", {})[name] = round(now - t_last[0], 1)
+        t_last[0] = now
     gen_ok = True
+    units = {}
     try:
-        gen(ctx)
+        units = gen(ctx)
     except U as e:
         gen_ok = False
         ctx.fail("translate", f"translate:{e}", None, f"poisson.py / robust_poisson.py left the translated subset: {e}", {}, found_input=False)
@@ -1372,15 +1428,33 @@ def run(ctx: Ctx):  # noqa: F811
             ctx.notes.append(f"C17 development not available: {e}")
         status = ctx.coq_build()
         ctx.register_props(status)
+        if status.get("C16_refuted_lapmol.v"):
+            ctx.mark_refuted("laplacian_mol_sum", "laplacian_mol_refuted_lemma")
+    phase("gen+coq")
+    # --- the molecular Laplacian on a fixed input (re-derives the known finding while it exists)
+    got, exp, ana = laplacian_mol_canonical()
+    ctx.case(("laplacian_mol_canonical",))
+    if abs(got - exp) > 1e-8 * max(1.0, abs(exp)):
+        ctx.fail("laplacian_mol_sum", LAPMOL_KEY, round(got, 9),
+                 f"interpolate_laplacian on a two-atom MolGrid returns {got}; the sum over the atoms of the atomic Laplacians of w_A*f is {exp} "
+                 f"(analytic Laplacian of the function: {ana}): every closure appended in the loop calls the LAST atom's "
+                 "interpolate_laplacian_atom_grid (late binding), so all atoms use the last atom's slice of func_vals",
+                 {"reproduce": "tools/props/c16.py: laplacian_mol_canonical()", "expected": exp, "analytic": ana})
+    phase("laplacian_mol_canonical")
     # --- tie
     if gen_ok and status.get("C16_gen.v") and status.get("C16_model.v"):
-        tie_solvers(ctx)
-        tie_laplacian(ctx)
-        tie_robust(ctx)
+        C = Cases()
+        tie_solvers(ctx, C)
+        tie_laplacian(ctx, units.get("interpolate_laplacian", {}).get("closure_binding", {}), C)
+        tie_robust(ctx, C)
+        phase("tie_capture")
+        run_tie_cases(ctx, C)
+        phase("tie_coq")
     tie_molhelper(ctx)
     # --- oracle validation + search on the real solvers
     out = sweep(ctx)
     sweep_laplacian(ctx, out)
+    phase("sweep")
     worst = {}
     for rec in out:
         ctx.cov.setdefault("sweep_max_error_over_tol", {})
@@ -1429,3 +1503,29 @@ def run(ctx: Ctx):  # noqa: F811
     y00 = float(generate_real_spherical_harmonics(0, np.array([0.1]), np.array([0.1]))[0, 0])
     if abs(y00 - 1 / math.sqrt(4 * math.pi)) > 1e-14:
         ctx.fail("oracle_Y00", "oracle:Y00", y00, f"Y_00 = {y00} is not 1/sqrt(4 pi)", {}, found_input=True)
+
+
+def replay(rp: dict) -> int:
+    """./check C16 --replay <file>: re-run the recorded concrete input on the implementation."""
+    import json
+    print(json.dumps({k: v for k, v in rp.items() if k != "coq_log_tail"}, indent=1, default=str)[:3000])
+    if rp.get("key") == LAPMOL_KEY:
+        got, exp, ana = laplacian_mol_canonical()
+        print(f"interpolate_laplacian(two-atom MolGrid) = {got}; sum over atoms of atomic Laplacians = {exp}; analytic = {ana}")
+        return int(abs(got - exp) > 1e-8 * max(1.0, abs(exp)))
+    case = rp.get("case")
+    if isinstance(case, dict) and case.get("solver") in ("bvp", "ivp") and "point" in rp and "density" in case:
+        case = dict(case, id=-1)
+        case["radial"] = tuple(case["radial"])
+        case["density"] = [tuple(d) for d in case["density"]]
+        if case.get("r_interval"):
+            case["r_interval"] = tuple(case["r_interval"])
+        grid, tf, coords = build_grid(case)
+        rho, pot, scale = density_and_potential(case, coords)
+        V = solve_case(case, grid, tf, rho(grid.points))
+        p = np.array([rp["point"]], dtype=float)
+        got, exp = float(V(p.copy())[0]), float(pot(p)[0])
+        print(f"solve_poisson_{case['solver']}(...)({rp['point']}) = {got}; analytic potential = {exp}; error per unit charge = {abs(got - exp) / scale:.3e} (allowed {TOL})")
+        return int(not abs(got - exp) / scale <= TOL)
+    print("(no automatic replay for this record; see `text` and `case`)")
+    return 0
